@@ -366,6 +366,44 @@ def decimal_exact_parse_rule(ctx):
            'decimal text parsed with the rounding FromStr: %s; with from_str_exact: %d site(s)' % (rounding or 'nowhere', exact))
 
 
+def null_unit_variant_rule(ctx):
+    """(shared with C02) a unit variant under a `null` schema"""
+    f = ctx.f
+    suv = None
+    for b in f.body_list:
+        if b.name == 'serialize_unit_variant' and b.j['kind'] != 'closure' and 'DatumSerializer' in (b.j.get('self_ty') or ''):
+            suv = b
+    # ... and directly under a `null` schema the same holds: nothing is written, under Ok, exactly for the unit variant the
+    # decoder presents a null as - the Ok sits on the *equal* edge of the comparison with that name (any other variant of
+    # the caller's enum is not a null)
+    okn_, detn_ = False, 'no arm for a null schema in serialize_unit_variant'
+    if suv is not None:
+        nr = [r for r in enum_regions(suv, SCHEMA_NODE) if r.variants == frozenset({'Null'}) or set(r.variants) == {'Null'}]
+        if nr:
+            okn_, detn_ = True, ''
+            oks_ = ok_return_blocks(suv, nr[0].blocks)
+            cmps_ = [(bb, suv.term(bb)) for bb in sorted(nr[0].blocks) if suv.term(bb)['k'] == 'call' and not suv.is_cleanup(bb) and
+                     (suv.term(bb).get('callee') or '').endswith(('PartialEq::eq', 'PartialEq::ne')) and
+                     any('Null' in {x for x in origin(suv, a).consts() if isinstance(x, str)} for a in suv.term(bb)['args'])]
+            if len(cmps_) != 1 or not oks_:
+                okn_, detn_ = False, '%d comparison(s) of the variant name with "Null" in the null arm, %d Ok return(s)' % (len(cmps_), len(oks_))
+            else:
+                cb_, ct_ = cmps_[0]
+                sw_ = ct_.get('target')
+                while sw_ is not None and suv.term(sw_)['k'] == 'goto':
+                    sw_ = suv.term(sw_)['target']
+                if sw_ is None or suv.term(sw_)['k'] != 'switch':
+                    okn_ = False
+                else:
+                    z_ = [x['bb'] for x in suv.term(sw_)['targets'] if x['v'] == 0]
+                    eq_edge = suv.term(sw_)['otherwise'] if ct_['callee'].endswith('::eq') else (z_[0] if z_ else None)
+                    ne_edge = (z_[0] if z_ else None) if ct_['callee'].endswith('::eq') else suv.term(sw_)['otherwise']
+                    okn_ = eq_edge is not None and ne_edge is not None and eq_edge != ne_edge and \
+                        all(suv.dominates(eq_edge, o_) for o_ in oks_) and not any(suv.dominates(ne_edge, o_) for o_ in oks_)
+                detn_ = 'Ok with nothing written only on the edge where the variant name equals "Null": %s' % okn_
+    ctx.ob('NAMEPAIR', 'Null/unit-variant-under-a-null-schema', okn_, short_loc(suv.span) if suv else None, detn_)
+
+
 def enum_presentation_rule(ctx, dm=None):
     """An Avro enum is matched to the caller's variants by SYMBOL: the serializer resolves a unit variant by its name,
     so every hint through which a Rust enum / identifier / string asks for the value (identifier, any, str, string)
@@ -490,6 +528,7 @@ def name_pair(ctx):
             oku = 'Null' in keys and bool(prop) and set(prop) <= cmp_names
             detu = 'decoder presents the null branch as unit variant %s; union arm of serialize_unit_variant compares the variant name with %s and can select lookup keys %s' % (prop, sorted(cmp_names) or 'nothing', sorted(k for k in keys if k))
     ctx.ob('NAMEPAIR', 'Null/unit-variant-selects-null-branch', oku, short_loc(suv.span) if suv else None, detu)
+    null_unit_variant_rule(ctx)
     # named kinds register both the short and the full name; names of named types and built-in type names ("Duration",
     # "Date", "String" ...) share one table, so what a name designates follows a precedence: the full name of a named type
     # (what the decoder proposes for it) beats a type name, which beats the namespace-less short name of a named type that has
